@@ -215,7 +215,11 @@ def run_case(case, ctx):
                     ctx.violation("csv-count-mismatch", "-m mae -agg count -x %s column %d: got %s expected %s"
                                   % (axis, k, got, exp), case)
         if F >= 2:
-            base = runner.run_cli(paths + cflag + ["-m", "mae", "-x", "leadtime", "-type", "csv"])
+            import random as _r
+            mrng = _r.Random(len(ds["inputs"][0]["cells"]) * 31 + F)
+            mcmd = mrng.choice([["-m", "mae"], ["-m", "rmse"], ["-m", "corr"], ["-m", "bias", "-agg", "median"], ["-m", "ets", "-r", "5"],
+                                ["-m", "obs"], ["-m", "mae", "-agg", "count"]]) + ["-x", mrng.choice(["leadtime", "time", "location", "no", "month"])]
+            base = runner.run_cli(paths + cflag + mcmd + ["-type", "csv"])
             b = len(ds["inputs"]) - 1
             ds2 = {"inputs": [dict(i) for i in ds["inputs"]], "clim": ds["clim"]}
             pert = dict(ds2["inputs"][b])
@@ -231,7 +235,7 @@ def run_case(case, ctx):
             p2 = os.path.join(d2, pert["name"])
             pert["style"] = dict(ds["inputs"][b]["style"])
             gen.write_input(pert, d2, None)
-            o2 = runner.run_cli(paths[:b] + [p2] + cflag + ["-m", "mae", "-x", "leadtime", "-type", "csv"])
+            o2 = runner.run_cli(paths[:b] + [p2] + cflag + mcmd + ["-type", "csv"])
             ctx.count("metamorphic_pairs")
             if base.status == "ok" and o2.status == "ok":
                 h1, r1 = runner.parse_csv(base.stdout)
